@@ -28,6 +28,12 @@ thread_local! {
     pub(crate) static MAP: RefCell<Option<Weak<RwLock<ArenaMap>>>> = RefCell::new(Some(Default::default()));
 }
 
+/// Number of values currently stored in the arena (read-only; verification builds only).
+#[cfg(leptos_verif)]
+pub fn verif_arena_len() -> usize {
+    Arena::try_with(|arena| arena.len()).unwrap_or(0)
+}
+
 impl Arena {
     #[inline(always)]
     #[allow(unused)]
